@@ -293,13 +293,17 @@ class Scale:
     def __init__(self, rng):
         self.rng = rng
         mode = rng.random()
-        if mode < 0.35:
+        if mode < 0.32:
             self.kinds = ['int', 'half']
-        elif mode < 0.5:
+        elif mode < 0.45:
             self.kinds = ['rand']
-        elif mode < 0.62:
+        elif mode < 0.55:
             self.kinds = ['tiny']
-        elif mode < 0.74:
+        elif mode < 0.67:
+            # drawings in tiny units: every coordinate (and hence every arc radius) of order 1e-12..1e-8
+            self.kinds = ['nano']
+            self.unit = rng.choice([1e-8, 2.5e-9, 1e-9, 1e-10, 1e-11, 1e-12])
+        elif mode < 0.78:
             self.kinds = ['huge']
         else:
             self.kinds = ['any']
@@ -315,6 +319,8 @@ class Scale:
             return rng.randint(-41, 41) / 2.0
         if k == 'tiny':
             return rng.choice([1e-7, 3e-7, 2.5e-7, 1.25e-7, 7e-8, 1e-5, 9.5e-7, 4.2e-8]) * rng.choice([1, -1, 2, 3, -5])
+        if k == 'nano':
+            return rng.choice([rng.randint(-50, 50), rng.randint(-99, 99) / 4.0, rng.uniform(-30, 30)]) * self.unit
         if k == 'huge':
             return rng.choice([1e16, 2e16, 1e16 + 2, 3e15, 1.5e17, 4e16, 1e22, 7e15]) * rng.choice([1, -1, 3])
         if k == 'rand':
@@ -335,9 +341,13 @@ def gen_path(rng):
     from svgpathtools import Line, QuadraticBezier, CubicBezier, Arc
     sc = Scale(rng)
     n = rng.randint(1, 7)
-    structure = rng.choice(['open', 'closed-line', 'closed-curve', 'subpaths', 'revisit', 'closed-line', 'closed-curve'])
-    if structure in ('closed-line',) and n < 2:
+    structure = rng.choice(['open', 'closed-line', 'closed-curve', 'subpaths', 'revisit', 'closed-line', 'closed-curve',
+                            'subpaths-return-line', 'subpaths-return-curve'])
+    if structure in ('closed-line', 'subpaths-return-line', 'subpaths-return-curve') and n < 2:
         n = 2
+    # several subpaths, the last one ending on the starting point of the first: start == end, not continuous
+    returning = structure.startswith('subpaths-return')
+    jump_at = rng.randint(1, n - 1) if returning else None
     if structure == 'revisit' and n < 3:
         n = 3
     start = sc.pt()
@@ -350,11 +360,16 @@ def gen_path(rng):
         # where does the segment start?
         if structure == 'subpaths' and i > 0 and rng.random() < 0.5:
             cur = sc.pt(avoid=[cur])
+        if returning and i > 0 and (i == jump_at or rng.random() < 0.25):
+            cur = sc.pt(avoid=[cur, start])
         s = cur
         # where does it end?
-        if last and structure in ('closed-line', 'closed-curve', 'revisit'):
+        if last and (returning or structure in ('closed-line', 'closed-curve', 'revisit')):
             e = start
-            kind = 'L' if structure == 'closed-line' else (rng.choice(['Q', 'C', 'A']) if structure == 'closed-curve' else kind)
+            if structure in ('closed-line', 'subpaths-return-line'):
+                kind = 'L'
+            elif structure in ('closed-curve', 'subpaths-return-curve'):
+                kind = rng.choice(['Q', 'C', 'A'])
         elif structure == 'revisit' and i == revisit_at - 1 + 0 and i >= 0 and revisit_at is not None and i == revisit_at - 1:
             e = start
         else:
@@ -551,15 +566,28 @@ def holds_impl(segs, o):
     if len(q) == n + 1 and r and z and closedc and not isinstance(segs[-1], Line) and isinstance(q[-1], Line) \
             and abs(q[-1].end - q[-1].start) <= tol:
         extra, q = q[-1], q[:-1]          # the documented closing line of rounding-error length
+    contin = all(segs[i].end == segs[i + 1].start for i in range(len(segs) - 1))
+    z_for_jumps = z and not contin and d.rstrip()[-1:] in 'Zz'     # a 'Z' although the path has several subpaths
+    ndraw = len(re.findall(r'[LlHhVvCcSsQqTtAa]', d))             # drawing commands written
     kinds_p = [(type(s).__name__,) + ((s.large_arc, s.sweep) if isinstance(s, Arc) else ()) for s in segs]
     kinds_q = [(type(s).__name__,) + ((s.large_arc, s.sweep) if isinstance(s, Arc) else ()) for s in q]
     if kinds_p != kinds_q:
         if z and closedc and not isinstance(segs[-1], Line) and len(q) == n and kinds_p[:-1] == kinds_q[:-1] \
-                and isinstance(q[-1], Line):
+                and isinstance(q[-1], Line) and ndraw == n - 1:
             return 'd-closed-attrib-drops-closing-curve', 'closing %s re-parsed as a Line' % kinds_p[-1][0]
-        if z and closedc and not isinstance(segs[-1], Line) and kinds_q == kinds_p[:-1]:
+        if z and closedc and not isinstance(segs[-1], Line) and kinds_q == kinds_p[:-1] and ndraw == n - 1:
             return 'd-closed-attrib-drops-closing-curve', ('closing %s dropped altogether (it starts and ends on the '
                                                            'start of the path, so Z adds nothing)') % kinds_p[-1][0]
+        if z_for_jumps:
+            return 'd-Z-written-for-path-with-several-subpaths', ("'Z' written although the path is not continuous "
+                                                                  "(start == end only): kinds %s became %s") % (kinds_p, kinds_q)
+        if len(kinds_p) == len(kinds_q):
+            for i, (a, b) in enumerate(zip(kinds_p, kinds_q)):
+                if a != b:
+                    if a[0] == 'Arc' and b[0] == 'Line':
+                        return 'd-arc-reparsed-as-line', ('segment %d: Arc with radius %r (non-zero) re-parsed as a Line'
+                                                          % (i, segs[i].radius))
+                    break
         return 'd-segments-dropped-added-or-changed-kind', 'kinds %s became %s' % (kinds_p, kinds_q)
     bad = []
     for i, (a, b) in enumerate(zip(segs, q)):
@@ -588,6 +616,9 @@ def holds_impl(segs, o):
             return 'd-ST-reflection-rounding', ('segment %d: %s %r re-parsed as %r (%.1f ulp): is_smooth_from said smooth, '
                                                'the parser reflects differently') % (i, nm, x, y, cdiff_ulps(x, y))
     i, nm, x, y = bad[0]
+    if z_for_jumps:
+        return 'd-Z-written-for-path-with-several-subpaths', ("'Z' written although the path is not continuous (start == end "
+                                                              "only): segment %d: %s %r re-parsed as %r") % (i, nm, x, y)
     return ('d-rel-roundtrip-beyond-rounding' if r else 'd-abs-roundtrip-not-equal'), \
         'segment %d: %s %r re-parsed as %r' % (i, nm, x, y)
 
@@ -667,6 +698,13 @@ def corpus():
         ([QuadraticBezier(0j, 1 + 1j, 2 + 0j), QuadraticBezier(2 + 0j, 3 - 1j, 4 + 0j),
           QuadraticBezier(4 + 0j, 5 + 1j, 6 + 0j), QuadraticBezier(6 + 0j, 7 - 1j, 8 + 0j)], 'corpus:T-chain'),
         ([Arc(0j, 1e-3 + 1e-3j, 0.0, False, True, 10 + 0j), Arc(10 + 0j, 5 + 5j, 0.0, True, True, 0j)], 'corpus:arcs-autoscaled-closed'),
+        ([Line(0j, complex(3e-9, 0)), Arc(complex(3e-9, 0), complex(2e-9, 1.5e-9), 30.0, False, True, complex(3e-9, 4e-9)),
+          Arc(complex(3e-9, 4e-9), complex(5e-12, 7e-12), 0.0, True, False, 0j)], 'corpus:tiny-unit-arcs'),
+        ([Arc(complex(1e-12, 0), complex(1e-12, 1e-12), 0.0, False, True, complex(-1e-12, 0))], 'corpus:tiny-unit-arc-alone'),
+        ([Line(0j, 4 + 0j), Line(4 + 0j, 4 + 3j), Line(10 + 10j, 12 + 10j), Line(12 + 10j, 0j)], 'corpus:subpaths-return-line'),
+        ([Line(0j, 4 + 0j), Line(10 + 10j, 0j)], 'corpus:subpaths-return-single-line'),
+        ([Line(0j, 4 + 0j), Line(4 + 0j, 4 + 3j), Line(10 + 10j, 12 + 10j),
+          CubicBezier(12 + 10j, 14 + 12j, 3 + 5j, 0j)], 'corpus:subpaths-return-curve'),
         ([Line(complex(-0.0, 0.0), complex(1e16, 1e-7)), QuadraticBezier(complex(1e16, 1e-7), complex(-0.0, -0.0), complex(0.0, -0.0))],
          'corpus:signed-zero'),
     ]
@@ -789,9 +827,9 @@ def run(rep, tier, seed, replay=None):
         rep.cov['traces_validated_against_impl'] = len(cases) * 8
         rep.cov['distinct_nontrivial'] = len(nontrivial)
         rep.cov['rule'] = ('paths of 1-7 segments, structure from {open, closed by Line, closed by curve, several subpaths, '
-                           'revisiting the start}, kinds Line/Quadratic/Cubic/Arc uniformly, smooth joins injected with '
+                           'several subpaths returning to the first start (last a Line / a curve), revisiting the start}, kinds Line/Quadratic/Cubic/Arc uniformly, smooth joins injected with '
                            'probability 1/2 (parser\'s expression / code\'s test), coordinates from the pools (integers, halves, '
-                           '1e-7-like, 1e16-like, 53-bit mantissas with exponent -10..20, signed zeros), arcs with too-small '
+                           '1e-7-like, tiny units 1e-12..1e-8 (arcs with radii of that size), 1e16-like, 53-bit mantissas with exponent -10..20, signed zeros), arcs with too-small '
                            '(auto-enlarged) radii; each x all 8 option sets; non-trivial = at least two kinds or a closing curve; '
                            'per path and option 3 observations compared inside Coq in binary64')
         rep.cov['input_distribution'] = {'structure': dist, 'segment_kinds': kindsdist}
